@@ -128,7 +128,6 @@ func earlyExitKnobs(p *CallPlan) {
 	if p.K.DownWindow < 1<<20 {
 		p.K.DownWindow = 1 << 20
 	}
-	p.K.Lazy = false
 }
 
 func genRich(t *core.Tape, tier, prop string) *Scenario {
